@@ -314,8 +314,13 @@ def run_shard(shard, tier, acc):
 def replay(case, acc):
     if "special_library" in case:
         return run_special(acc)
+    if "leak" in case:
+        return run_shard(("leak", 0), "quick", acc)
     names = tuple(case["library"])
     order = tuple([t.__name__ for t in TYPES_ALL].index(t) for t in case["order"])
+    # history of the run: sorters with every other order were built before this one (state kept on the class, if any)
+    for o in ORDERS[:: max(1, len(ORDERS) // 40)] + LONG_ORDERS:
+        SortBlocksByTypeAndKeyMiddleware(block_type_order=tuple(TYPES_ALL[i] for i in o))
     check(names, build(names), order, case["comments_on_top"], acc)
 
 
